@@ -40,7 +40,14 @@ def shard(shard_i, nshards, payload):
             g = vgen.VGen(rng, avoid=payload["avoid"] if i % 3 else ())
             decls = g.unit()
             feats = ",".join(sorted(g.features))
-            text = vgen.render_unit(decls)
+            recase = (i % 2 == 1)
+
+            def spell_unit(d_):
+                t_ = vgen.render_unit(d_)
+                # identifiers are case-insensitive: half of the units are analysed with every identifier occurrence
+                # re-spelled in another letter case
+                return vgen.recase_identifiers(t_, core.rng_for(seed, "c02case", i, len(t_))) if recase else t_
+            text = spell_unit(decls)
             codes, obs = analyze(probe, text)
             res.evaluations += 1
             case = {"text": text, "what": "valid unit"}
@@ -74,7 +81,7 @@ def shard(shard_i, nshards, payload):
             # (b) every single fault
             faults = list(vgen.plant_all(decls))
             for code, site, mutant, spellings in faults:
-                mtext = vgen.render_unit(mutant)
+                mtext = spell_unit(mutant)
                 mcodes, mobs = analyze(probe, mtext)
                 res.evaluations += 1
                 res.count("planted:" + code)
@@ -114,7 +121,7 @@ def shard(shard_i, nshards, payload):
                     m = list(fa[2])
                     for k in ib:
                         m[k] = fb[2][k]
-                    dtext = vgen.render_unit(m)
+                    dtext = spell_unit(m)
                     dcodes, dobs = analyze(probe, dtext)
                     res.evaluations += 1
                     res.count("double")
